@@ -496,4 +496,198 @@ Module Examples.
   Proof. reflexivity. Qed.
   Example new_root_self : new_root never no_git (mem_ops m) l "." = Err.
   Proof. reflexivity. Qed.
+
+  (* the recursion over bases: "/root" lists "sub", nothing else lists anything *)
+  Definition bases1 (r : string) : list string := if String.eqb r "/root" then ["sub"] else [].
+  Example visit_ok : visit_roots never no_git 5 (mem_ops m) bases1 l = Ok ["/root"; "/root/sub"].
+  Proof. reflexivity. Qed.
+  (* a kustomization listing itself or its parent is an error, not a loop *)
+  Example visit_cycle : visit_roots never no_git 5 (mem_ops m) (fun _ => [".."]) l = Err.
+  Proof. reflexivity. Qed.
+  Example m_has_4_dirs : List.length (m_dirs m) = 4%nat.
+  Proof. reflexivity. Qed.
 End Examples.
+
+(* ---------- the chain of roots is bounded by the number of directories ---------- *)
+
+Section Bounded.
+  Variable is_repo : string -> bool.
+  Variable git_new : loader -> string -> res loader.
+  Variable fs : fsops.
+  (* the directories ConfirmDir can return: a finite list *)
+  Variable dirs : list string.
+  Hypothesis Hdirs : forall q d, confirm_dir fs q = Ok d -> In d dirs.
+  (* the file system's CleanedAbs has no fuel of its own to run out of *)
+  Hypothesis Hnd : forall q, f_cleaned_abs fs q <> Diverge.
+
+  (* what holds of every loader built by NewLoader and New on local references *)
+  Definition chain_ok (l : loader) : Prop :=
+    stack_inv (l_stack l) /\ Forall (fun r => In r dirs) (l_stack l).
+
+  Lemma new_loader_chain_ok r target l :
+    is_repo target = false -> new_loader is_repo git_new fs r target = Ok l ->
+    chain_ok l /\ List.length (l_stack l) = 1.
+  Proof.
+    intros Hrepo H. split; [split|].
+    - eapply new_loader_stack_inv; eauto.
+    - unfold new_loader in H. rewrite Hrepo in H.
+      destruct (confirm_dir fs target) as [d| | |] eqn:C; try discriminate. inv H.
+      constructor; [|constructor]. cbn. eauto.
+    - unfold new_loader in H. rewrite Hrepo in H.
+      destruct (confirm_dir fs target) as [d| | |]; try discriminate. inv H. reflexivity.
+  Qed.
+
+  Lemma new_root_chain_ok l p l' :
+    is_repo p = false -> chain_ok l -> new_root is_repo git_new fs l p = Ok l' ->
+    chain_ok l' /\ List.length (l_stack l') = S (List.length (l_stack l)).
+  Proof.
+    intros Hrepo [Hinv Hin] H.
+    destruct (new_root_no_cycle _ _ _ _ _ _ Hrepo H) as (F & E & _ & C & _).
+    split; [split|].
+    - eapply new_root_stack_inv; eauto.
+    - rewrite E. constructor; auto. eapply Hdirs; eauto.
+    - rewrite E. reflexivity.
+  Qed.
+
+  (* pairwise distinct existing directories: no more of them than there are directories *)
+  Theorem stack_bounded l : chain_ok l -> List.length (l_stack l) <= List.length dirs.
+  Proof.
+    intros [Hinv Hin]. apply NoDup_incl_length.
+    - apply stack_inv_nodup; auto.
+    - intros x Hx. rewrite Forall_forall in Hin. auto.
+  Qed.
+
+  (* loading cannot recurse forever: with one unit of fuel per directory not yet on the chain (plus one)
+     the recursion over bases never runs out of fuel *)
+  Theorem visit_roots_terminates (bases : string -> list string) :
+    (forall r p, In p (bases r) -> is_repo p = false) ->
+    forall fuel l,
+      chain_ok l -> fuel + List.length (l_stack l) > List.length dirs ->
+      visit_roots is_repo git_new fuel fs bases l <> Diverge.
+  Proof.
+    intros Hb. induction fuel as [|f IH]; intros l Hc Hf.
+    - pose proof (stack_bounded l Hc). lia.
+    - cbn [visit_roots].
+      assert (G : forall ps, (forall p, In p ps -> is_repo p = false) ->
+                (fix go (ps : list string) : res (list string) :=
+                   match ps with
+                   | [] => Ok []
+                   | p :: t =>
+                       match new_root is_repo git_new fs l p with
+                       | Ok l2 => do a <- visit_roots is_repo git_new f fs bases l2; do b <- go t; Ok (a ++ b)
+                       | Err => Err
+                       | Panic => Panic
+                       | Diverge => Diverge
+                       end
+                   end) ps <> Diverge).
+      { induction ps as [|p t IHt]; intros Hp; [discriminate|].
+        destruct (new_root is_repo git_new fs l p) as [l2| | |] eqn:N; try discriminate.
+        - destruct (new_root_chain_ok l p l2 (Hp p (or_introl eq_refl)) Hc N) as [Hc2 L2].
+          specialize (IH l2 Hc2 ltac:(lia)).
+          destruct (visit_roots is_repo git_new f fs bases l2) as [a| | |]; try discriminate; [|congruence].
+          cbn [bind]. specialize (IHt (fun q Hq => Hp q (or_intror Hq))).
+          match goal with |- bind ?X _ <> _ => destruct X as [b| | |]; try discriminate; congruence end.
+        - exfalso. unfold new_root in N.
+          destruct (String.eqb p ""); [discriminate|]. rewrite (Hp p (or_introl eq_refl)) in N.
+          destruct (is_abs p); [discriminate|].
+          destruct (confirm_dir fs (cd_join (l_root l) p)) as [d| | |] eqn:C; try discriminate.
+          + destruct (arg_equal_or_higher d (l_stack l)); discriminate.
+          + unfold confirm_dir in C. destruct (String.eqb (cd_join (l_root l) p) ""); [discriminate|].
+            destruct (f_cleaned_abs fs (cd_join (l_root l) p)) as [[d f0]| | |] eqn:CA; try discriminate.
+            * destruct (String.eqb f0 ""); discriminate.
+            * eapply Hnd; eauto. }
+      specialize (G (bases (l_root l)) (fun p Hp => Hb _ p Hp)).
+      match goal with |- bind ?X _ <> _ => destruct X as [b| | |]; try discriminate; congruence end.
+  Qed.
+End Bounded.
+
+(* ---------- instances: the two file systems ---------- *)
+
+Lemma m_walk_no_diverge cs : forall n, m_walk n cs <> Diverge.
+Proof.
+  induction cs as [|c cs IH]; intros n; cbn; [discriminate|].
+  destruct n as [|es]; [discriminate|]. destruct (m_lookup c es); [apply IH|discriminate].
+Qed.
+
+Lemma m_cleaned_abs_no_diverge m q : m_cleaned_abs m q <> Diverge.
+Proof.
+  unfold m_cleaned_abs, m_find. destruct (m_is_dir m); cbn [negb]; [|discriminate].
+  destruct (String.eqb q ""); [discriminate|].
+  destruct (String.eqb q sep || String.eqb q "."); [destruct m; discriminate|].
+  pose proof (m_walk_no_diverge (raw_comps (clean_query q)) m).
+  destruct (m_walk m (raw_comps (clean_query q))) as [[[c|es]|]| | |]; try discriminate; congruence.
+Qed.
+
+Lemma d_cleaned_abs_no_diverge root cwd q : d_cleaned_abs root cwd q <> Diverge.
+Proof.
+  unfold d_cleaned_abs, eval_symlinks.
+  destruct (eval_links_ok_or_err root go_link_budget (raw_comps (abs_path cwd q)) []) as [[phys E]|E]; rewrite E; [|discriminate].
+  destruct (d_is_dir root cwd (clean (abs_of phys))); [discriminate|].
+  destruct (negb (d_is_dir root cwd (dir_of (clean (abs_of phys))))); [discriminate|].
+  destruct (String.eqb (dir_of (clean (abs_of phys))) (clean (abs_of phys))); [discriminate|].
+  destruct (negb (String.eqb (join2 (dir_of (clean (abs_of phys))) (base_of (clean (abs_of phys)))) (clean (abs_of phys)))); discriminate.
+Qed.
+
+Definition mem_dir_names (m : mnode) : list string := map abs_of (m_dirs m).
+Definition disk_dir_names (root : dnode) : list string := map abs_of (d_dirs root).
+
+Lemma mem_confirm_dir_in_dirs m q d :
+  wf_mnode m = true -> confirm_dir (mem_ops m) q = Ok d -> In d (mem_dir_names m).
+Proof.
+  intros Hwf H. destruct (mem_confirm_dir m q d Hwf H) as (cs & es & -> & _ & Ha).
+  apply in_map. eapply m_at_in_dirs; eauto.
+Qed.
+
+Lemma disk_confirm_dir_in_dirs root cwd q d :
+  is_dir_node root -> wf_dnode root = true -> confirm_dir (disk_ops root cwd) q = Ok d -> In d (disk_dir_names root).
+Proof.
+  intros Hd Hwf H. destruct (disk_confirm_dir root cwd q d Hd Hwf H) as (cs & es & -> & _ & Ha).
+  apply in_map. eapply d_at_in_dirs; eauto.
+Qed.
+
+Section BoundedInstances.
+  Variable is_repo : string -> bool.
+  Variable git_new : loader -> string -> res loader.
+
+  (* In-memory FS: from the loader krusty.Run starts with, any chain of successful New calls has at most
+     as many roots as the tree has directories, and the recursion over bases terminates with
+     fuel = number of directories (one more than needed, as the first root is already on the chain). *)
+  Theorem mem_stack_bounded m l :
+    wf_mnode m = true -> chain_ok (mem_dir_names m) l ->
+    List.length (l_stack l) <= List.length (m_dirs m).
+  Proof.
+    intros Hwf Hc. rewrite <- (map_length abs_of). eapply stack_bounded; eauto.
+  Qed.
+
+  Theorem mem_visit_roots_terminates m r target l bases :
+    wf_mnode m = true -> is_repo target = false ->
+    (forall rt p, In p (bases rt) -> is_repo p = false) ->
+    new_loader is_repo git_new (mem_ops m) r target = Ok l ->
+    visit_roots is_repo git_new (S (List.length (m_dirs m))) (mem_ops m) bases l <> Diverge.
+  Proof.
+    intros Hwf Hrt Hb Hl.
+    destruct (new_loader_chain_ok is_repo git_new (mem_ops m) (mem_dir_names m)
+                (fun q d => mem_confirm_dir_in_dirs m q d Hwf) r target l Hrt Hl) as [Hc L].
+    apply (visit_roots_terminates is_repo git_new (mem_ops m) (mem_dir_names m)
+             (fun q d => mem_confirm_dir_in_dirs m q d Hwf) (m_cleaned_abs_no_diverge m) bases Hb); auto.
+    unfold mem_dir_names. rewrite map_length. lia.
+  Qed.
+
+  Theorem disk_stack_bounded root l :
+    chain_ok (disk_dir_names root) l -> List.length (l_stack l) <= List.length (d_dirs root).
+  Proof. intros Hc. rewrite <- (map_length abs_of). eapply stack_bounded; eauto. Qed.
+
+  Theorem disk_visit_roots_terminates root cwd r target l bases :
+    is_dir_node root -> wf_dnode root = true -> is_repo target = false ->
+    (forall rt p, In p (bases rt) -> is_repo p = false) ->
+    new_loader is_repo git_new (disk_ops root cwd) r target = Ok l ->
+    visit_roots is_repo git_new (S (List.length (d_dirs root))) (disk_ops root cwd) bases l <> Diverge.
+  Proof.
+    intros Hd Hwf Hrt Hb Hl.
+    destruct (new_loader_chain_ok is_repo git_new (disk_ops root cwd) (disk_dir_names root)
+                (fun q d => disk_confirm_dir_in_dirs root cwd q d Hd Hwf) r target l Hrt Hl) as [Hc L].
+    apply (visit_roots_terminates is_repo git_new (disk_ops root cwd) (disk_dir_names root)
+             (fun q d => disk_confirm_dir_in_dirs root cwd q d Hd Hwf) (d_cleaned_abs_no_diverge root cwd) bases Hb); auto.
+    unfold disk_dir_names. rewrite map_length. lia.
+  Qed.
+End BoundedInstances.
